@@ -378,6 +378,51 @@ def gen_C18(rng, tier):
         L.append("q mul T:%d T:%d" % (a, b))
         L.append("q div T:%d T:%d" % (a, b))
         L.append("q div D:%d T:%d" % (a, b))
+    L += gen_softfloat(rng, tier)
+    return L
+
+
+def strat_f32_bits(rng):
+    """binary32 bit patterns stratified over the classes that matter for rounding: subnormal, smallest normals, near 1,
+    few-mantissa-bit values (exact ties when added / multiplied), near overflow, the constants the crate uses, fully random"""
+    k = rng.randint(0, 9)
+    sign = rng.randint(0, 1) << 31
+    if k == 0:
+        return sign | rng.randint(0, 0x7fffff)                                   # subnormal / zero
+    if k == 1:
+        return sign | (rng.randint(1, 3) << 23) | rng.choice([0, 1, 0x7fffff, rng.randint(0, 0x7fffff)])
+    if k == 2:
+        return sign | (rng.randint(125, 129) << 23) | rng.randint(0, 0x7fffff)   # around 1
+    if k == 3:
+        return sign | (rng.randint(251, 254) << 23) | rng.choice([0, 0x7fffff, rng.randint(0, 0x7fffff)])   # near overflow
+    if k == 4:
+        return sign | (rng.randint(100, 160) << 23) | (rng.randint(0, 0x7ff) << 12)   # 11 significant bits: ties are common
+    if k == 5:
+        return sign | (rng.randint(100, 160) << 23) | rng.choice([0, 1, 2, 3, 0x7ffffe, 0x7fffff, 0x400000, 0x400001])
+    if k == 6:
+        return sign | rng.choice([0x4e6e6b28, 0x3f000000, 0x40000000, 0x3f800000, 0x4b800000, 0x4b7fffff, 0x5f000000])   # 1e9, .5, 2, 1, 2^24, 2^24-1, 2^63
+    return sign | (rng.randint(0, 254) << 23) | rng.randint(0, 0x7fffff)
+
+
+def gen_softfloat(rng, tier):
+    """`sf`: the CPU's binary32 `+ - * /`, `i64 as f32`, `f32 as i64` against the kernel-transparent model `Rrtk.Soft.rne32`"""
+    L = []
+    for _ in range(n_of(tier, 6000, 60000)):
+        a, b = strat_f32_bits(rng), strat_f32_bits(rng)
+        if rng.random() < 0.15:      # operands one ulp or a few binades apart: cancellation, exact ties
+            b = (a ^ (rng.randint(0, 1) << 31)) + rng.choice([0, 1, -1, 1 << 23, -(1 << 23), 3 << 23]) if 0 < (a & 0x7fffffff) < 0x7f000000 else b
+            b &= 0xffffffff
+        for op in ("add", "sub", "mul", "div"):
+            L.append("sf %s %08x %08x" % (op, a, b))
+    for _ in range(n_of(tier, 3000, 30000)):
+        n = strat_i64(rng)
+        L.append("sf ofint %d" % n)
+        L.append("sf toint %08x" % strat_f32_bits(rng))
+    for n in (0, 1, -1, 16777216, 16777217, 16777218, 16777219, -16777217, 1000000000, 999999999, I64_MAX, I64_MIN, I64_MAX - 1,
+              2 ** 62, 2 ** 62 + 2 ** 38, 2 ** 62 + 2 ** 38 + 1, 2 ** 62 + 3 * 2 ** 38):
+        L.append("sf ofint %d" % n)
+    for h in ("5f000000", "df000000", "5effffff", "deffffff", "7f800000", "ff800000", "7fc00000", "3f7fffff", "bf7fffff", "00000001", "80000001"):
+        L.append("sf toint %s" % h)
     return L
 
 
@@ -865,6 +910,12 @@ def mp_inputs(rng):
     v1 = rng.choice([0.0, 0.0, 0.0, sgn * vmax * rng.uniform(0, 1), rng.uniform(-1.5, 1.5) * vmax])
     a0 = rng.choice([0.0, 0.0, rng.uniform(-1, 1)])
     a1 = rng.choice([0.0, 0.0, 0.0, rng.uniform(-1, 1)])
+    if rng.random() < 0.08:      # end derivatives that are non-zero but below f32::EPSILON: still the "lowest non-zero derivative"
+        tiny = rng.choice([5e-8, -5e-8, 1e-10, -1e-10, 1e-39, -0.0])
+        if rng.random() < 0.5:
+            v1 = tiny
+        else:
+            v1, a1 = 0.0, tiny
     sv = rng.choice([1, 1, 1, -1])  # limits may be given negative: abs() is taken
     return (state(p0, v0, a0), state(p1, v1, a1), q(sv * vmax, 1, -1), q(sv * amax, 1, -2))
 
@@ -886,7 +937,7 @@ def mp_boundaries(lines):
 
 
 def query_times(rng, b, dense):
-    ts = [-1, 0, 1, I64_MIN, I64_MAX, -10 ** 12, rng.randint(-10 ** 6, -1)]
+    ts = [-1, 0, 1, I64_MIN, I64_MAX, -10 ** 12, rng.randint(-10 ** 6, -1), I64_MIN + 1, I64_MIN + rng.randint(2, 10 ** 10), I64_MAX - 1]
     if b:
         t1, t2, t3 = b
         for x in (t1, t2, t3):
@@ -925,6 +976,11 @@ def gen_mp(rng, tier, dense, pid):
         for eps in (-9e-5, -5e-5, -1e-5, -1e-6, 0.0, 1e-6, 1e-4):
             disp = sgn * (vmax * vmax / amax + vmax * eps)
             ins.append((state(0.0, 0.0, 0.0), state(disp, 0.0, 0.0), q(vmax, 1, -1), q(amax, 1, -2)))
+        # moves that are short of the accelerate-then-decelerate distance by a small RELATIVE amount (far above rounding): rejected
+        p0 = rng.choice([0.0, rng.uniform(-100, 100)])
+        for rel_short in (2e-4, 1e-3, 1.5e-3, 5e-3, 2e-2):
+            disp = sgn * (vmax * vmax / amax) * (1.0 - rel_short)
+            ins.append((state(p0, 0.0, 0.0), state(p0 + disp, 0.0, 0.0), q(vmax, 1, -1), q(amax, 1, -2)))
         # start / end speed exactly at the limit (zero-length acceleration or deceleration phase)
         p1 = sgn * (3 * vmax * vmax / amax + 1.0)
         ins.append((state(0.0, 0.0, 0.0), state(p1, sgn * vmax, 0.0), q(vmax, 1, -1), q(amax, 1, -2)))
@@ -990,11 +1046,15 @@ def oracle_C06(lines, impl):
     bad = []
     order = {"BS": 0, "IA": 1, "CV": 2, "EA": 3, "CO": 4}
     for c, o in zip(lines, impl):
-        if not c.startswith("mp ") or "PANIC" in o or o in ("NOIMPL", "BADLINE"):
+        if not c.startswith("mp ") or o.startswith("PANIC") or o in ("NOIMPL", "BADLINE"):
             continue
         ct = c.split(" ")
         ts = [int(x) for x in ct[5:]]
         toks = o.split(" ")
+        if "PANIC" in o:
+            k = len(toks) - 6
+            bad.append((c, "an accessor of an accepted profile panicked (%s) at query time %s" % (toks[-1], ts[k] if 0 <= k < len(ts) else "?")))
+            continue
         if len(toks) != 5 + len(ts):
             continue
         t1, t2, t3 = (int(x[2:]) for x in toks[:3])
@@ -1735,9 +1795,11 @@ def project_commands(case, line):    # C13: the commands only
 def project_C06(case, line):
     """motion profile, accessor AGREEMENT: keep the structure (piece, mode, which accessors are present, the history's time and
     kind) and the end command; the numeric values and the phase durations t1,t2,t3 are owned by C07"""
-    if not case.startswith("mp ") or "PANIC" in line or line in ("NOIMPL", "BADLINE"):
-        return "REJECTED" if "PANIC" in line else line
+    if not case.startswith("mp ") or line.startswith("PANIC") or line in ("NOIMPL", "BADLINE"):
+        return "REJECTED" if line.startswith("PANIC") else line
     toks = line.split(" ")
+    # a PANIC token AFTER the constructor's five tokens is an accessor that panicked on an accepted profile: kept, so that it
+    # is compared (the accessors of the unchanged crate never panic, and the model proves it: history_no_panic)
     out = ["ACCEPTED", toks[4][:1] if len(toks) > 4 else "?"]     # accepted + kind of the end command
     for tk in toks[5:]:
         p = tk.split("/")
@@ -1878,9 +1940,9 @@ def precompare_C06(case, impl, model):
     comparison with the model is skipped (drift) and only the oracle on the implementation's own outputs decides."""
     if not case.startswith("mp "):
         return None
-    if ("PANIC" in impl) != ("PANIC" in model):
+    if impl.startswith("PANIC") != model.startswith("PANIC"):
         return ("drift", "acceptance differs (owned by C07)")
-    if "PANIC" in impl:
+    if impl.startswith("PANIC"):
         return ("same", None)
     if impl.split(" ")[:3] != model.split(" ")[:3]:
         return ("drift", "phase boundaries differ (owned by C07)")
